@@ -120,6 +120,10 @@ func Assert(c bool, id string) {
 func Reach(id string)                 {}
 func Known(id string, c bool)         {}
 func Native() bool                    { return true }
+
+// EngineOnlyReplay declares that this harness replaces a dependency that cannot be injected natively (a concrete
+// struct method); counterexamples are then confirmed by the engine's re-execution of the recorded path only.
+func EngineOnlyReplay(reason string) {}
 func Replace(name string, model any)  {}
 func Stub(name string)                {}
 func MapOrders(on bool)               {}
